@@ -29,6 +29,7 @@ import (
 	"github.com/TheManticoreProject/Manticore/network/smb/smb_v10/message/securityfeatures"
 
 	"verif/checks/smbgen"
+	"verif/checks/smbhist"
 	"verif/enum"
 	"verif/mc/bfs"
 	"verif/mc/explore"
@@ -56,6 +57,10 @@ func run(c *vf.Ctx) {
 	limitsPart(c, u)
 	repeatPart(c, u, tally)
 	tally.Publish()
+	// the parameter and data blocks as objects of their own: call histories Set/Decode/Encode on ONE block object
+	s1 := smbhist.Data(c, "C03/history", c.Pick(3, 4))
+	s2 := smbhist.Parameters(c, "C03/history", c.Pick(3, 4))
+	c.Set("object_history_bfs", map[string]any{"states": s1.States + s2.States, "transitions": s1.Transitions + s2.Transitions})
 }
 
 // ---------------------------------------------------------------- header
@@ -423,11 +428,13 @@ func limitsPart(c *vf.Ctx, u *refsmb.Universe) {
 		stream := enum.Counter(2*n, byte(n))
 		p := parameters.NewParameters()
 		p.AddWordsFromBytesStream(stream)
-		out, err := p.Marshal()
+		var out []byte
+		var err error
+		mp, mmsg, mwhere := vf.Try(func() { out, err = p.Marshal() })
 		want := append([]byte{byte(n)}, stream...)
 		c.Case([]byte("params-block"), []byte{byte(n)})
-		c.Check("C03/framing/parameters-block/marshal", err == nil && bytes.Equal(out, want), func() string {
-			return fmt.Sprintf("Parameters with %d words from byte stream %s: Marshal() = %s (%v), want WordCount then the same bytes", n, vf.HexS(stream), vf.HexS(out), err)
+		c.Check("C03/framing/parameters-block/marshal", !mp && err == nil && bytes.Equal(out, want), func() string {
+			return fmt.Sprintf("Parameters with %d words from byte stream %s: Marshal() = %s (%v) panic=%v %s %s, want WordCount then the same bytes", n, vf.HexS(stream), vf.HexS(out), err, mp, mmsg, mwhere)
 		})
 		q := parameters.NewParameters()
 		var rn int
@@ -442,11 +449,13 @@ func limitsPart(c *vf.Ctx, u *refsmb.Universe) {
 		payload := enum.Counter(n, byte(n))
 		d := data.NewData()
 		d.Add(payload)
-		out, err := d.Marshal()
+		var out []byte
+		var err error
+		mp, mmsg, mwhere := vf.Try(func() { out, err = d.Marshal() })
 		want := append([]byte{byte(n), byte(n >> 8)}, payload...)
 		c.Case([]byte("data-block"), []byte(fmt.Sprint(n)))
-		c.Check("C03/framing/data-block/marshal", err == nil && bytes.Equal(out, want), func() string {
-			return fmt.Sprintf("Data with %d bytes: Marshal() = %s (%v), want ByteCount little-endian then the bytes", n, vf.HexS(out), err)
+		c.Check("C03/framing/data-block/marshal", !mp && err == nil && bytes.Equal(out, want), func() string {
+			return fmt.Sprintf("Data with %d bytes: Marshal() = %s (%v) panic=%v %s %s, want ByteCount little-endian then the bytes", n, vf.HexS(out), err, mp, mmsg, mwhere)
 		})
 		e := data.NewData()
 		var rn int
